@@ -276,13 +276,13 @@ MUTANTS = {
         "edits": [(PE, "torch.finfo(dW_LA[i].dtype).tiny", "torch.finfo(float).tiny")]},
     "adv_alpha_sign": {
         "props": ["C16"], "what": "+ alpha * dLA instead of - alpha * dLA",
-        "edits": [(PE, "            p.grad = dW_LP[i] - proj * unit_dW_LA - self.base.alpha * dW_LA[i]", "            p.grad = dW_LP[i] - proj * unit_dW_LA + self.base.alpha * dW_LA[i]")]},
+        "edits": [(PE, "            p.grad = dW_LP[i] - (proj * unit_dW_LA) - (self.base.alpha * dW_LA[i])", "            p.grad = dW_LP[i] - (proj * unit_dW_LA) + (self.base.alpha * dW_LA[i])")]},
     "adv_projection_dropped": {
         "props": ["C16"], "what": "projection term dropped",
-        "edits": [(PE, "            p.grad = dW_LP[i] - proj * unit_dW_LA - self.base.alpha * dW_LA[i]", "            p.grad = dW_LP[i] - self.base.alpha * dW_LA[i]")]},
+        "edits": [(PE, "            p.grad = dW_LP[i] - (proj * unit_dW_LA) - (self.base.alpha * dW_LA[i])", "            p.grad = dW_LP[i] - (self.base.alpha * dW_LA[i])")]},
     "adv_projection_unnormalised": {
         "props": ["C16"], "what": "projection uses dLA instead of the unit vector once",
-        "edits": [(PE, "            p.grad = dW_LP[i] - proj * unit_dW_LA - self.base.alpha * dW_LA[i]", "            p.grad = dW_LP[i] - proj * dW_LA[i] - self.base.alpha * dW_LA[i]")]},
+        "edits": [(PE, "            p.grad = dW_LP[i] - (proj * unit_dW_LA) - (self.base.alpha * dW_LA[i])", "            p.grad = dW_LP[i] - (proj * dW_LA[i]) - (self.base.alpha * dW_LA[i])")]},
     "adv_adversary_not_stepped_on_own_gradient": {
         "props": ["C16"], "what": "adversary gradients zeroed before its optimiser step when alpha == 0",
         "edits": [(PE, "        self.predictor_optimizer.step()\n        self.adversary_optimizer.step()", "        self.predictor_optimizer.step()\n        if self.base.alpha == 0:\n            self.adversary_optimizer.zero_grad()\n        self.adversary_optimizer.step()")]},
